@@ -20,7 +20,10 @@ PROPERTY_UNITS = {
     'C19': ['u_calc'],
 }
 from vx import kani_engine as _kani
+from vx import axcheck as _ax
 EXTRA_ENGINES = {'C19': [('kani', _kani.engine)]}
+for _p in _ax.AXIOMS:
+    EXTRA_ENGINES.setdefault(_p, []).append(('axcheck', _ax.engine_for(_p)))
 HOOK_COMMITS = []
 
 META = {
